@@ -83,6 +83,7 @@ class C11(SpecValueCheck):
         p.real_wc = False
         p.ref_constraint_rate = 55
         p.stack_rate = 35
+        p.named_rate = 45
         p.via_ref_floor_rate = 70
         # weight the kinds that can carry an interpreted constraint
         p.kinds = p.kinds + ['INTEGER'] * 8 + ['OCTET STRING', 'BIT STRING', 'IA5String', 'VisibleString',
